@@ -19,9 +19,9 @@ func init() {
 
 	register(&Rule{ID: "C03.a", Doc: "case bodies return after the switch and are registered under their own case's value / default flag", Floor: 8, Run: c03a})
 	register(&Rule{ID: "C03.b", Doc: "shared bodies: forward scan from i+1 to the first body; registered destinations are chunk ids, never -1", Floor: 6, Run: c03b})
-	register(&Rule{ID: "C03.c", Doc: "default bookkeeping consistent at every exit; switch chunk wiring", Floor: 7, Run: c03c})
+	register(&Rule{ID: "C03.c", Doc: "default bookkeeping consistent at every exit; switch chunk wiring", Floor: 9, Run: c03c})
 	register(&Rule{ID: "C03.d", Doc: "switch rendering: header, registered case lines in order, operands of the same entry", Floor: 4, Run: c03d})
-	register(&Rule{ID: "C03.e", Doc: "the parser lists the cases of a switch in the order they are written: one entry per parsed case or default, appended in the iteration that parsed it; a registered destination is computed in its own iteration", Floor: 3, Run: c03e})
+	register(&Rule{ID: "C03.e", Doc: "the parser lists the cases of a switch in the order they are written: one entry per parsed case or default, appended in the iteration that parsed it; a registered destination is computed in its own iteration", Floor: 6, Run: c03e})
 }
 
 type scbInfo struct {
